@@ -208,6 +208,22 @@ class World:
                 return m['uuid'] == exp
         return False
 
+    def uuid_ids(self, st, disk):
+        """(recorded, reported) UUID of a disk as small ids, 0 = empty: the model decides has_past_inodes from them"""
+        k = self.arr.disks.index(disk)
+        cur = ('fake-uuid-%d' % (2 - k)).encode() if (self.fake_uuid and k < 2) else b''
+        rec = b''
+        for m in (st['maps'] if st else []):
+            if m['name'] == disk:
+                rec = m['uuid']
+        ids = getattr(self, '_uuid_ids', None)
+        if ids is None:
+            ids = self._uuid_ids = {b'': 0}
+        for u in (rec, cur):
+            if u not in ids:
+                ids[u] = len(ids)
+        return ids[rec], ids[cur]
+
     # ------------------------------------------------------------------------------------------ time-stamps
     def stamp(self, zero_ns=None):
         """a fresh, strictly increasing mtime; nanoseconds zero with probability 1/4 (or as requested)"""
@@ -347,6 +363,19 @@ class World:
             if self.isfile(o[1], o[2]) and not os.path.lexists(t) and self.parent_ok(o[1], o[3]):
                 os.makedirs(os.path.dirname(t), exist_ok=True)
                 os.link(s, t); a.note_version(o[1], o[3]); done = True
+        elif k == 'linkkind':                  # a symlink whose text is the path of a file becomes a hard link to it (same name, same recorded text), or back
+            q = self.p(o[1], o[2])
+            if os.path.islink(q):
+                t = os.readlink(q)
+                if self.isfile(o[1], t):
+                    os.unlink(q); os.link(self.p(o[1], t), q); a.note_version(o[1], o[2]); done = True
+            elif self.isfile(o[1], o[2]) and os.stat(q).st_nlink > 1:
+                ino = os.stat(q).st_ino
+                base = os.path.join(a.root, o[1])
+                others = sorted(os.path.relpath(os.path.join(r, n), base) for r, dn, fn in os.walk(base) for n in fn
+                                if not os.path.islink(os.path.join(r, n)) and os.stat(os.path.join(r, n)).st_ino == ino and os.path.join(r, n) != q)
+                if others:
+                    os.unlink(q); os.symlink(others[0], q); done = True
         elif k == 'mkdir':                     # (empty) directory, replacing a file or link of that name
             if self.parent_ok(o[1], o[2]):
                 q = self.p(o[1], o[2])
